@@ -93,7 +93,34 @@ def namespace():
         n2.update(kw)
         return ev(c.returns[1], n2)
     ns["post"] = post
+    for name, fn in predicates(ns).items():
+        ns[name] = fn
     return ns
+
+
+_PRED_SRC = None
+
+
+def predicates(ns):
+    global _PRED_SRC
+    if _PRED_SRC is None:
+        _PRED_SRC = []
+        d = os.path.join(VERIF, "contracts")
+        for fn in sorted(os.listdir(d)):
+            if not fn.endswith(".py") or fn.startswith("_"):
+                continue
+            tree = ast.parse(open(os.path.join(d, fn)).read())
+            for node in tree.body:
+                if isinstance(node, ast.FunctionDef) and any(isinstance(x, ast.Name) and x.id == "predicate" for x in node.decorator_list):
+                    node.decorator_list = []
+                    _PRED_SRC.append(ast.Module(body=[node], type_ignores=[]))
+    out = {}
+    for mod in _PRED_SRC:
+        ast.fix_missing_locations(mod)
+        exec(compile(mod, "<predicate>", "exec"), ns, out)
+    for f in out.values():
+        f.__globals__.update(out)
+    return out
 
 
 def ev(expr, ns):
@@ -279,6 +306,7 @@ def cmd_falsify(req):
     budget = req.get("budget", 2000)
     want = req.get("clause")
     tried = 0
+    fallback = None
     for recipes in gen(rng):
         tried += 1
         if tried > budget:
@@ -287,7 +315,17 @@ def cmd_falsify(req):
         if not rep["in_domain"]:
             continue
         if rep["violations"]:
-            return {"found": True, "tried": tried, "args": recipes, "report": rep}
+            hit = {"found": True, "tried": tried, "args": recipes, "report": rep}
+            if not want or any(want in v for v in rep["violations"]):
+                return hit
+            if fallback is None:
+                fallback = hit
+                fb_at = tried
+            if tried - fb_at > 300:
+                break
+    if fallback is not None:
+        fallback["note"] = f"input violates {fallback['report']['violations']} (no input violating exactly '{want}' found)"
+        return fallback
     return {"found": False, "tried": tried}
 
 
